@@ -421,6 +421,18 @@ impl<'tcx> Ex<'tcx> {
                     items.push(("v", v));
                 } else {
                     items.push(("ptr", "1".to_string()));
+                    // constant pointee bytes (format_args! templates live here on this toolchain)
+                    if let rustc_middle::mir::interpret::Scalar::Ptr(ptr, _) = s {
+                        let (prov, off) = ptr.prov_and_relative_offset();
+                        if let rustc_middle::mir::interpret::GlobalAlloc::Memory(a) = tcx.global_alloc(prov.alloc_id()) {
+                            let a = a.inner();
+                            if a.provenance().ptrs().is_empty() && a.len() < 4096 {
+                                let bytes = a.inspect_with_uninit_and_ptr_outside_interpreter(off.bytes_usize()..a.len());
+                                let hex: String = bytes.iter().map(|b| format!("{:02x}", b)).collect();
+                                items.push(("pbytes", jstr(&hex)));
+                            }
+                        }
+                    }
                 }
             }
             Some(ConstValue::ZeroSized) => {
